@@ -36,9 +36,11 @@ fn run_check(id: &str, rep: &mut Report) -> bool {
         "C02" => checks::c02::run(rep),
         "C03" => checks::c03::run(rep),
         "C04" => checks::c04::run(rep),
+        "C05" => checks::c05::run(rep),
         "C06" => checks::c06::run(rep),
         "C07" => checks::c07::run(rep),
         "C08" => checks::c08::run(rep),
+        "C09" => checks::c09::run(rep),
         "C18" => checks::c18::run(rep),
         "C19" => checks::c19::run(rep),
         "C20" => checks::c20::run(rep),
@@ -103,9 +105,11 @@ fn main() {
                 "C02" => checks::c02::replay(&v["case"], &mut rep),
                 "C03" => checks::c03::replay(&v["case"], &mut rep),
                 "C04" => checks::c04::replay(&v["case"], &mut rep),
+                "C05" => checks::c05::replay(&v["case"], &mut rep),
                 "C06" => checks::c06::replay(&v["case"], &mut rep),
                 "C07" => checks::c07::replay(&v["case"], &mut rep),
                 "C08" => checks::c08::replay(&v["case"], &mut rep),
+                "C09" => checks::c09::replay(&v["case"], &mut rep),
                 "C18" => checks::c18::replay(&v["case"], &mut rep),
                 "C19" => checks::c19::replay(&v["case"], &mut rep),
                 "C20" => checks::c20::replay(&v["case"], &mut rep),
